@@ -75,7 +75,7 @@ class Builder:
                 c = copy.deepcopy(dict(args["context"]))
                 _apply_ctx_ops(c, ops)
                 upd = {op[1]: c[op[1]] for op in ops}
-                rec.rec("ucall", "assign", name, ev_type(args.get("event")), ev_tag(args.get("event")))
+                rec.rec("ucall", "assign", name, ev_type(args.get("event")), ev_tag(args.get("event")), upd)
                 return upd
             return f_assign
         if k == "evpayload":
